@@ -250,6 +250,7 @@ func (t *Target) HealthCheckCompleted(success bool) {
 	simYield("health.completed", t)
 	previousState := t.state
 	newState := t.state
+	becameHealthy := false
 
 	t.withInflightLock(func() {
 		switch success {
@@ -257,7 +258,7 @@ func (t *Target) HealthCheckCompleted(success bool) {
 			switch t.state {
 			case TargetStateAdding:
 				t.state = TargetStateHealthy
-				close(t.becameHealthy)
+				becameHealthy = true
 			default:
 				t.state = TargetStateHealthy
 			}
@@ -277,6 +278,12 @@ func (t *Target) HealthCheckCompleted(success bool) {
 		if t.stateConsumer != nil {
 			t.stateConsumer.TargetStateChanged(t)
 		}
+	}
+
+	// Only signal waiters once the consumer has seen the change, so that a
+	// deploy cannot complete before the target is in rotation.
+	if becameHealthy {
+		close(t.becameHealthy)
 	}
 }
 
